@@ -170,6 +170,11 @@ def inputs_for(prop, tier):
             items.append({"kind": "forced-get-during-merge", "nth": nth, "keys": keys, "vlen": vlen, "max_file": mf})
         for pool, waiters in ((1, 2), (2, 2), (2, 5), (4, 4), (4, 8)):
             items.append({"kind": "pool-contention", "pool": pool, "waiters": waiters, "rounds": 12 if q else 100})
+        # a set / delete that fails, the writer held at the failing call, a get of the key meanwhile
+        for op in ("del", "set"):
+            items.append({"kind": "forced-fault-vs-get", "op": op, "nth": 0, "config": {"concurrency": 2}})
+            items.append({"kind": "forced-fault-vs-get", "op": op, "nth": 1, "config": {"concurrency": 2, "max_file_size": 0}})
+            items.append({"kind": "forced-fault-vs-get", "op": op, "nth": 1, "config": {"concurrency": 2, "sync": "always"}})
         for pool, fails in ((1, 1), (1, 3), (2, 2), (2, 5), (4, 4), (4, 9)):
             items.append({"kind": "read-fault", "pool": pool, "fails": fails})
         for i in range(24 if q else 240):
